@@ -449,16 +449,16 @@ def near_pts(rmin_choices):
 
 def gen_inputs(tier, rng):
     big = tier == "thorough"
-    N = 12 if big else 1
+    N = 10 if big else 1
     decs = ["array", "grid", "vector"]
     # ---- makers: every decorator x every grid kind, values / pairs / lists
-    for i in range(260 * N):
+    for i in range(200 * N):
         dec = decs[i % 3]
         g = rand_grid(rng)
         u = rand_ufun(rng, "V" if dec == "array" else "P", allow_drop=(i % 7 == 0))
         yield {"op": "make", "dec": dec, "grid": g, "u": u}
     # ---- project_grid
-    for i in range(200 * N):
+    for i in range(150 * N):
         g = rand_grid(rng, kinds=("mask", "mask", "2d", "irr", "1d", "1d", "raw"))
         centre = rng.choice(["absent", None, "v", "v", "v", "v"])
         if centre == "v":
@@ -470,7 +470,7 @@ def gen_inputs(tier, rng):
         yield {"op": "project", "grid": g, "u": u, "centre": centre, "angle": angle, "rpc": bool(i % 2)}
     # ---- relocate_to_radial_minimum alone
     npf = near_pts(RMINS)
-    for i in range(200 * N):
+    for i in range(160 * N):
         rmin = rng.choice(RMINS + RMINS + [None])
         def pts(r, n): return npf(r, n, rm=rmin)
         kinds = ("2d", "irr", "raw") if i % 5 else ("mask",)
@@ -479,7 +479,7 @@ def gen_inputs(tier, rng):
         u = rand_ufun(rng, rng.choice("VP")) if i % 3 else IDENT
         yield {"op": "relocate", "grid": g, "u": u, "rmin": rmin, "rad": rad}
     # ---- the stack to_X(transform(relocate(f))), plain and nested
-    for i in range(260 * N):
+    for i in range(200 * N):
         dec = decs[i % 3]
         rmin = rng.choice(RMINS + RMINS + [None])
         centre = (F(rng.randint(-8, 8), 4), F(rng.randint(-8, 8), 4))
